@@ -15,6 +15,7 @@ import (
 	"github.com/emersion/go-message/textproto"
 	"github.com/emersion/go-smtp"
 	"github.com/foxcpp/go-mockdns"
+	"github.com/foxcpp/go-mtasts"
 	"github.com/foxcpp/maddy/framework/buffer"
 	"github.com/foxcpp/maddy/framework/config"
 	"github.com/foxcpp/maddy/framework/log"
@@ -318,7 +319,7 @@ func runReal(t *testing.T, b Behaviour, w *bufio.Writer, hops map[hopKey]*hop, d
 	tr := vtrace.New(w, b.ID)
 	tr.Emit("Cfg", vtrace.Ev{"partial": b.Cfg.Partial, "bounce": b.Cfg.Bounce, "nullSender": b.Cfg.NullSender,
 		"mt": b.Cfg.Mt, "list": b.Cfg.List, "rw": []string{}, "utf8": b.Cfg.Utf8, "chain": false,
-		"idn": b.Cfg.Idn, "errtext": "", "real": true, "fwd": b.Cfg.Fwd})
+		"idn": b.Cfg.Idn, "errtext": "", "real": true, "fwd": b.Cfg.Fwd, "sts": b.Cfg.Sts})
 	hk := hopKey{b.Cfg.Partial && b.Cfg.Fwd != "remote", !b.Cfg.Idn || b.Cfg.Utf8}
 	h := hops[hk]
 	h.set(tr, PlanOf(b.Hist), idOf)
@@ -328,13 +329,32 @@ func runReal(t *testing.T, b Behaviour, w *bufio.Writer, hops map[hopKey]*hop, d
 	var tgt module.DeliveryTarget = downs[hk]
 	if b.Cfg.Fwd == "remote" {
 		// the real remote-MX target: MX lookup through a mock resolver, every dial lands on the hop
+		mxHost := "hop.example.org."
+		var policies []module.MXAuthPolicy
+		if b.Cfg.Sts == "nil" {
+			// the policy cache answers "neither a policy nor an error" (go-mtasts does when it fetched a policy
+			// but could not write its cache file and had nothing cached)
+			policies = []module.MXAuthPolicy{remote.VerifRemoteMTASTSPolicy(
+				func(context.Context, string) (*mtasts.Policy, error) { return nil, nil },
+				log.Logger{Out: log.NopOutput{}})}
+		}
+		if b.Cfg.Sts == "wild" {
+			// the recipient domains publish an MTA-STS policy (testing mode: the hop speaks no TLS) with a wildcard pattern, and the MX
+			// the DNS names is an internationalized host in A-label form that the pattern covers
+			mxHost = "xn--bcher-kva.de."
+			policies = []module.MXAuthPolicy{remote.VerifRemoteMTASTSPolicy(
+				func(context.Context, string) (*mtasts.Policy, error) {
+					return &mtasts.Policy{Mode: mtasts.ModeTesting, MaxAge: 86400, MX: []string{"*.de"}}, nil
+				}, log.Logger{Out: log.NopOutput{}})}
+		}
 		rt := remote.VerifRemoteNewTarget(remote.VerifRemoteConfig{
 			Hostname: "mx.example.org",
+			Policies: policies,
 			Resolver: &mockdns.Resolver{Zones: map[string]mockdns.Zone{
-				"example.org.":          {MX: []net.MX{{Host: "hop.example.org.", Pref: 10}}},
-				"xn--e1afmkfd.example.": {MX: []net.MX{{Host: "hop.example.org.", Pref: 10}}},
-				"пример.example.":       {MX: []net.MX{{Host: "hop.example.org.", Pref: 10}}},
-				"hop.example.org.":      {A: []string{"127.0.0.1"}},
+				"example.org.":          {MX: []net.MX{{Host: mxHost, Pref: 10}}},
+				"xn--e1afmkfd.example.": {MX: []net.MX{{Host: mxHost, Pref: 10}}},
+				"пример.example.":       {MX: []net.MX{{Host: mxHost, Pref: 10}}},
+				mxHost:                  {A: []string{"127.0.0.1"}},
 			}},
 			Dialer: func(ctx context.Context, network, _ string) (net.Conn, error) {
 				var d net.Dialer
@@ -391,12 +411,27 @@ func runReal(t *testing.T, b Behaviour, w *bufio.Writer, hops map[hopKey]*hop, d
 		t.Fatal(err)
 	}
 	deadline := time.Now().Add(40 * time.Second)
-	for len(spoolFiles(dir)) != 0 && time.Now().Before(deadline) {
+	broken := func() bool {
+		for _, f := range spoolFiles(dir) {
+			if strings.HasSuffix(f, ".meta_broken") {
+				return true
+			}
+		}
+		return false
+	}
+	for len(spoolFiles(dir)) != 0 && !broken() && time.Now().Before(deadline) {
 		time.Sleep(2 * time.Millisecond)
 	}
 	q.Close() // waits for the in-flight attempt, if any
 	files := spoolFiles(dir)
 	if len(files) != 0 {
+		for _, f := range files {
+			if strings.HasSuffix(f, ".meta_broken") {
+				// the queue itself gave the entry up (its panic handler): that is an outcome, not a time-out
+				tr.Emit("Quiesced", vtrace.Ev{"spoolEmpty": false, "files": append([]string{}, files...)})
+				return
+			}
+		}
 		tr.Emit("Stuck", vtrace.Ev{"files": append([]string{}, files...)})
 		return
 	}
